@@ -511,6 +511,11 @@ func runPipeline(c Case) (o hx.Outcome) {
 	} else {
 		var bad []byte
 		bad, kind, detail = applyCorr(good, lf.unc, c.Corr, victim.data, other, be.Enc)
+		if tooBig(bad, lf, be) {
+			o.Class("skipped:header-declares>16MiB")
+			o.Desc = map[string]any{"mode": c.Mode, "skipped": "poisoned object announces a content size above 16 MiB", "corruption": kind, "what": detail}
+			return o
+		}
 		lf.plant(victim.id, bad)
 		changed = !bytes.Equal(bad, good)
 		effective = changed && !decodesTo(bad, lf.unc, victim.data)
